@@ -65,8 +65,9 @@ def is_arr(s):
 
 
 class Gen:
-    def __init__(self, rng, theories=('core', 'ints', 'reals', 'bv', 'strings', 'arrays', 'fp', 'dt'), quant=True):
+    def __init__(self, rng, theories=('core', 'ints', 'reals', 'bv', 'strings', 'arrays', 'fp', 'dt'), quant=True, exotic=0.0):
         self.rng = rng
+        self.exotic = exotic    # probability of a quoted symbol that needs its bars (space, parenthesis, semicolon inside)
         self.th = set(theories)
         self.quant = quant
         self.counter = itertools.count()
@@ -77,7 +78,10 @@ class Gen:
         self.scope = []         # let/quantifier bound (name, sort)
 
     def fresh(self, prefix):
-        return f'{prefix}{next(self.counter)}'
+        n = next(self.counter)
+        if self.exotic and self.rng.random() < self.exotic:
+            return self.rng.choice(['|{p} {n}|', '|{p}({n})|', '|{p};{n}|', '|{p}{n}|', '|the {p} {n}|']).format(p=prefix, n=n)
+        return f'{prefix}{n}'
 
     def sorts(self):
         s = [BOOL]
@@ -394,7 +398,7 @@ def gen_script(rng, **kw):
     if theories is None:
         pool = ['ints', 'reals', 'bv', 'strings', 'arrays', 'fp', 'dt']
         theories = ['core'] + [t for t in pool if rng.random() < 0.5]
-    g = Gen(rng, theories, quant=kw.pop('quant', True))
+    g = Gen(rng, theories, quant=kw.pop('quant', True), exotic=kw.pop('exotic', 0.0))
     cmds = g.script(**kw)
     return g, cmds
 
